@@ -108,12 +108,41 @@ func (g *gen) fieldKey(st string) string {
 
 // fieldTypeOf resolves the type a key addresses (first match, approximating fieldIndexByName) for value generation.
 func fieldTypeOf(st, key string) string {
+	if t := fieldTypeByTag(st, key); t != "" {
+		return t
+	}
+	// the FieldByName fallback of reads and writes: a direct exported field by its Go name (json:"-" fields)
+	return fieldTypeByGoName(st, key)
+}
+
+// fieldTypeByGoName approximates reflect's FieldByName: a direct field first, then promoted ones.
+func fieldTypeByGoName(st, key string) string {
+	if key == "" || key[0] < 'A' || key[0] > 'Z' {
+		return ""
+	}
+	for _, f := range splitFields(st) {
+		if f.name == key {
+			return f.typ
+		}
+	}
+	for _, f := range splitFields(st) {
+		if f.anon == "1" && strings.HasPrefix(f.typ, "T{") {
+			if t := fieldTypeByGoName(f.typ, key); t != "" {
+				return t
+			}
+		}
+	}
+	return ""
+}
+
+// fieldTypeByTag mirrors fieldIndexByName.
+func fieldTypeByTag(st, key string) string {
 	for _, f := range splitFields(st) { // same order of precedence as fieldIndexByName
 		if f.name[0] < 'A' || f.name[0] > 'Z' {
 			continue
 		}
 		if f.anon == "1" && strings.HasPrefix(f.typ, "T{") {
-			if t := fieldTypeOf(f.typ, key); t != "" {
+			if t := fieldTypeByTag(f.typ, key); t != "" {
 				return t
 			}
 		}
